@@ -80,61 +80,65 @@ class TraceWriter(object):
 
 
 def judge(module, cfg, files, tag, env_extra=None, timeout=3600, heap="3g"):
-    """Run the trace spec over every file (parallel TLC processes).  Returns list of
-    (file_index, line_index(1-based), clause) and the number of machinery errors."""
+    """Run the trace spec over every file (parallel TLC processes).  Returns a list of
+    (file_index, line_index (1-based), clause).  Verdicts are total: if TLC cannot evaluate a clause on some
+    record (malformed value), that record is rejected with clause EvalError and the other records of the file
+    are still judged (the file is split around it, by bisection when TLC does not name the record)."""
     results = []
-    offsets, cur_files, depth, retry = {}, {}, {}, []
+    # work items: (file index, path, offset of its first record in the original file)
+    todo = [(i, f, 0) for i, f in enumerate(files)]
+    serial = [0]
 
-    def one(i):
-        env = {"TRACE_FILE": cur_files.get(i, files[i])}
+    def one(item):
+        i, path, off = item
+        env = {"TRACE_FILE": path}
         if env_extra:
             env.update(env_extra)
-        r = tlc.run_tlc(module, cfg, "%s_j%04d" % (tag, i), workers=1, env=env, cont=True,
-                        timeout=timeout, heap=heap)
-        return i, r
+        serial[0] += 1
+        r = tlc.run_tlc(module, cfg, "%s_j%04d_%d" % (tag, i, off), workers=1, env=env, cont=True, timeout=timeout, heap=heap)
+        return item, r
 
-    todo = list(range(len(files)))
+    import re as _re
+    rounds = 0
     while todo:
-      del retry[:]
-      with concurrent.futures.ThreadPoolExecutor(max_workers=min(16, max(1, len(todo)))) as ex:
-        for i, r in ex.map(one, todo):
-            if r.errors:
-                # an evaluation error while judging a record is a verdict on that record (total verdicts):
-                # the record is outside what the specification can even interpret.  The records after it
-                # are judged in a follow-up run.
-                import re as _re
-                txt = open(r.out_path).read()
-                m = _re.search(r"^(?:/\\ )?l = (\d+)\s*$", txt, _re.M)
-                if m and "Parsing or semantic analysis failed" not in txt:
-                    bad = int(m.group(1))
-                    off = offsets.get(i, 0)
-                    results.append((i, off + bad, "EvalError"))
-                    for v in r.violations:
-                        lv = v["state"].get("l")
-                        if lv is not None and int(lv) < bad:
-                            results.append((i, off + int(lv), v["name"]))
-                    lines = open(cur_files.get(i, files[i])).read().splitlines()
-                    rest = lines[bad:]
-                    if rest and depth.get(i, 0) < 40:
-                        nf = files[i] + ".rest%d" % depth.get(i, 0)
-                        open(nf, "w").write("\n".join(rest) + "\n")
-                        cur_files[i] = nf
-                        offsets[i] = off + bad
-                        depth[i] = depth.get(i, 0) + 1
-                        retry.append(i)
+        rounds += 1
+        if rounds > 60:
+            raise MachineryError("trace validation %s does not terminate" % module)
+        nxt = []
+        with concurrent.futures.ThreadPoolExecutor(max_workers=min(16, max(1, len(todo)))) as ex:
+            for (i, path, off), r in ex.map(one, todo):
+                lines = open(path).read().splitlines()
+                if r.errors:
+                    txt = open(r.out_path).read()
+                    if "Parsing or semantic analysis failed" in txt or "TLC exit code" in " ".join(r.errors) and not lines:
+                        tlc.require_clean(r, "trace validation %s on %s" % (module, path))
+                    m = _re.search(r"^(?:/\\ )?l = (\d+)\s*$", txt, _re.M)
+                    if len(lines) == 1:
+                        results.append((i, off + 1, "EvalError"))
+                        continue
+                    if m:
+                        bad = int(m.group(1))
+                        results.append((i, off + bad, "EvalError"))
+                        parts = [(lines[:bad - 1], off), (lines[bad:], off + bad)]
+                    else:
+                        h = len(lines) // 2
+                        parts = [(lines[:h], off), (lines[h:], off + h)]
+                    for k, (ls, o) in enumerate(parts):
+                        if ls:
+                            nf = "%s.part_%d_%d" % (files[i], o, len(ls))
+                            open(nf, "w").write("\n".join(ls) + "\n")
+                            nxt.append((i, nf, o))
                     continue
-            tlc.require_clean(r, "trace validation %s on %s" % (module, files[i]))
-            nrec = sum(1 for _ in open(cur_files.get(i, files[i])))
-            if r.distinct != nrec:
-                raise MachineryError("trace validation %s: %d records but TLC saw %d initial states (%s)"
-                                     % (module, nrec, r.distinct, r.out_path))
-            for v in r.violations:
-                lv = v["state"].get("l")
-                if lv is None:
-                    raise MachineryError("cannot locate violating record in %s" % r.out_path)
-                results.append((i, offsets.get(i, 0) + int(lv), v["name"]))
-            shutil.rmtree(os.path.dirname(r.out_path), ignore_errors=True)
-      todo = list(retry)
+                if r.distinct != len(lines):
+                    raise MachineryError("trace validation %s: %d records but TLC saw %d initial states (%s)"
+                                         % (module, len(lines), r.distinct, r.out_path))
+                for v in r.violations:
+                    lv = v["state"].get("l")
+                    if lv is None:
+                        raise MachineryError("cannot locate violating record in %s" % r.out_path)
+                    results.append((i, off + int(lv), v["name"]))
+                shutil.rmtree(os.path.dirname(r.out_path), ignore_errors=True)
+        todo = nxt
     return results
 
 
